@@ -154,6 +154,9 @@ func (c *SimConn) Close() error {
 	return nil
 }
 
+// ClosedCh is closed when this end has been closed locally.
+func (c *SimConn) ClosedCh() <-chan struct{} { return c.closed }
+
 func (c *SimConn) LocalAddr() net.Addr              { return c.laddr }
 func (c *SimConn) RemoteAddr() net.Addr             { return c.raddr }
 func (c *SimConn) SetDeadline(time.Time) error      { return nil }
@@ -378,6 +381,10 @@ func (c *SimPacketConn) Close() error {
 	c.once.Do(func() { close(c.closed) })
 	return nil
 }
+
+// ClosedCh is closed when the connection has been closed locally.
+func (c *SimPacketConn) ClosedCh() <-chan struct{} { return c.closed }
+
 func (c *SimPacketConn) IsClosed() bool {
 	select {
 	case <-c.closed:
